@@ -8,4 +8,6 @@ let table : (string * (Model.sx -> Model.sx)) list = [
   "sconn", Model.check_sconn;
   "mconn", Model.check_mconn;
   "admit", Model.check_admit;
+  "pool", Model.check_pool;
+  "mempool", Model.check_mempool;
 ]
